@@ -1,0 +1,36 @@
+// Copyright 2025 The Go Authors. All rights reserved.
+// Use of this source code is governed by a BSD-style
+// license that can be found in the LICENSE file.
+
+//go:build verif
+
+package dnsmessage
+
+// Contracts, spec functions and lemma harnesses for the deductive verifier in /verif (govc).
+// This file is compiled only with -tags verif; it adds no behaviour to the package.
+
+// ---------------------------------------------------------------------------
+// EDNS(0) (property C38)
+
+//@ func (*ResourceHeader).SetEDNS0(h, udpPayloadLen, extRCode, dnssecOK) (err)
+//@   inline
+//@ func (*ResourceHeader).ExtendedRCode(h, rcode) (r)
+//@   inline
+//@ func (*ResourceHeader).DNSSECAllowed(h) (r)
+//@   inline
+
+// lemmaEDNS0: for every extended RCode below 4096 whose low four bits travel in the message
+// header, every UDP payload size and both DNSSEC-OK values, the header set by SetEDNS0
+// reports the same extended RCode and the same DO bit, and is a root-named OPT record.
+//
+//@ lemma
+//@ requires ext < 4096
+//@ ensures ok
+func lemmaEDNS0(udp int, ext RCode, do bool) (ok bool) {
+	var h ResourceHeader
+	if h.SetEDNS0(udp, ext, do) != nil {
+		return false
+	}
+	return h.ExtendedRCode(ext&0xF) == ext && h.DNSSECAllowed() == do &&
+		h.Class == Class(udp) && h.Type == TypeOPT && h.Name.Length == 1 && h.Name.Data[0] == '.'
+}
